@@ -331,8 +331,8 @@ func (ps *sparser) primary() SExpr {
 			ps.p++
 			var args []SExpr
 			for !ps.isOp(")") {
-				// allow a type name with * as argument of typeis
-				if ps.isOp("*") {
+				// allow a type name with * as the type argument of typeis / anyelems / anyfield (elsewhere * is a dereference)
+				if ps.isOp("*") && (t.s == "typeis" || t.s == "anyelems" || t.s == "anyfield") {
 					ps.p++
 				}
 				args = append(args, ps.expr())
